@@ -4,6 +4,7 @@ import (
 	"encoding/json"
 	"fmt"
 	"os"
+	"os/exec"
 	"path/filepath"
 	"time"
 
@@ -15,8 +16,8 @@ import (
 // alongside the rest of C20): the reason the command line bounds --update-interval is that a
 // host updating at an accepted interval must never drop out of the pool's
 // activity window. The built agent (fake full node) runs at 100 s against the
-// built pool; a client asks for peers every 5 s for 125 s and must be offered
-// that host every time.
+// built pool; a client asks for peers from second 93 to second 125 (every 2 s; the
+// connection is left silent before that) and must be offered that host every time.
 func c20AcceptedIntervalStaysWithinExpiry(ev *vlib.Evidence) {
 	bin, err := vlib.BuildVipnode("plain")
 	if err != nil {
@@ -25,6 +26,9 @@ func c20AcceptedIntervalStaysWithinExpiry(ev *vlib.Evidence) {
 	}
 	dir, _ := os.MkdirTemp("", "verif-c20e-")
 	defer os.RemoveAll(dir)
+	if keep := os.Getenv("VERIF_C20_KEEP"); keep != "" {
+		defer func() { exec.Command("cp", "-r", dir, keep).Run() }()
+	}
 	paddr := fmt.Sprintf("127.0.0.1:%d", vlib.FreePort())
 	pp, err := vlib.StartProc(filepath.Join(dir, "pool.log"), []string{"HOME=" + dir}, bin, "pool", "--store=memory", "--bind", paddr)
 	if err != nil || !pp.WaitListening(paddr, 30*time.Second) {
@@ -90,10 +94,26 @@ func c20AcceptedIntervalStaysWithinExpiry(ev *vlib.Evidence) {
 	start := time.Now()
 	polls, missing := 0, []string{}
 	stalled := false // the harness itself was not scheduled for seconds: the machine is too loaded for a verdict
+	// the connection between agent and pool stays silent until shortly before the keep-alive is
+	// due (every poll makes the pool call the host, which would be traffic on that connection)
+	time.Sleep(91*time.Second - time.Since(start))
+	// the observer uses a fresh connection of its own (its first one has been silent just as long)
+	cs.c.Close()
+	client2 := vlib.NewIdentity("c20e2e-client", 1)
+	cs, err = newBinSession(paddr, client2)
+	if err != nil {
+		ev.Inconclusive("ws-dial")
+		return
+	}
+	defer cs.c.Close()
+	if _, e, _, _, ok := cs.call("vipnode_connect", vlib.ConnectReq(false, "geth", "", "")); !ok || e != "" {
+		ev.Inconclusive("client-connect")
+		return
+	}
 	for time.Since(start) < 125*time.Second {
 		t0 := time.Now()
-		time.Sleep(5 * time.Second)
-		if time.Since(t0) > 9*time.Second {
+		time.Sleep(2 * time.Second)
+		if time.Since(t0) > 6*time.Second {
 			stalled = true
 		}
 		ok, alive := offered()
